@@ -1,7 +1,7 @@
 (* Model of syntax/nullable.go (Nullable, isNullable) and syntax/set.go (ResolveSets, rules, oneRule.accept)
    on top of the closure model Util/Closure.v.  Executable definitions only. *)
 From Coq Require Import List ZArith Bool Arith.
-From TM Require Import Util.IntSet Util.Graph Util.Closure Gram.Cfg Syn.Expr.
+From TM Require Import Util.IntSet Util.Graph Util.Closure Util.ClosureCert Gram.Cfg Syn.Expr.
 Import ListNotations.
 Local Open Scope Z_scope.
 
@@ -283,3 +283,21 @@ Definition resolved_value (terms : list (list Z)) (v : expr) : expr :=
               end
   | _ => v
   end.
+
+(* the equation system ResolveSets hands to Closure.Compute (first part of resolve_sets), and the executable side
+   condition of the theorems about it: the node list is what Closure.Add/Intersect/Complement build and the
+   Tarjan output satisfies its contract (ClosureCert.closure_certb, proved sound) *)
+Definition resolve_est (T : Z) (vals : list expr) (sets : list tset) (inputs : list input) : list nat * est :=
+  let nl := nullable_syms T vals in
+  let rules := rules_of T vals sets inputs in
+  let '(result, st) := translate_all T sets (mkE [] [] [] [] []) in
+  let fuel := (5 * (Z.to_nat T + length vals) + 5)%nat in
+  (result, queue_loop fuel T nl rules result st).
+
+Definition sets_certb (T : Z) (vals : list expr) (sets : list tset) (inputs : list input) : bool :=
+  closure_certb (e_nodes (snd (resolve_est T vals sets inputs))).
+
+(* compiler/syntax.go (load) and compiler/compiler.go: with an `error` terminal the loader adds the named set
+   afterErr = set(follow error); a non-empty result turns error recovery on *)
+Definition after_err_set (err : Z) : tset := TSym 4 err.
+Definition is_recovering (after_err_terms : list Z) : bool := match after_err_terms with [] => false | _ => true end.
